@@ -1,3 +1,9 @@
 ser_coll!(AuxiliaryDataHash, BigNum, Certificates, Ed25519KeyHashes, Mint, NetworkId, ScriptDataHash, TransactionInputs, TransactionOutput, TransactionOutputs, Update, VotingProcedures, VotingProposals, Withdrawals);
 pub type Coin = BigNum;
 pub type SlotBigNum = BigNum;
+impl BigNum {
+    /// the number is 0 (BigNum is opaque in this unit; the numeric unit proves is_zero on the real text)
+    pub uninterp spec fn zero_(&self) -> bool;
+    #[verifier::external_body] pub fn is_zero(&self) -> (r: bool) ensures r == self.zero_() { unimplemented!() }
+}
+impl Clone for BigNum { #[verifier::external_body] fn clone(&self) -> (r: Self) ensures r == *self { unimplemented!() } }
